@@ -249,11 +249,21 @@ impl Property for C15 {
             let r2 = e2.csolve(&s.tau, &s.y[..rows - 1], s.left_n, s.right_n, s.lsq).is_err();
             let mut e3 = PPSpline::<f64>::new(k, t.clone(), None);
             let r3 = if s.lsq { e3.csolve(&s.tau, &s.y, s.left_n, s.right_n, false).is_err() } else { true };
-            (r1, r2, r3)
+            // fewer sites than coefficients is an error with least squares allowed too
+            let few = n.saturating_sub(1).min(rows - 1);
+            let r4 = if few >= 1 {
+                let mut e4 = PPSpline::<f64>::new(k, t.clone(), None);
+                let mut e5 = PPSpline::<Dual>::new(k, t.clone(), None);
+                let yd: Vec<Dual> = s.y[..few].iter().map(|y| Dual::new(*y, vec![])).collect();
+                e4.csolve(&s.tau[..few], &s.y[..few], s.left_n, s.right_n, true).is_err() && e5.csolve(&s.tau[..few], &yd, s.left_n, s.right_n, true).is_err()
+            } else {
+                true
+            };
+            (r1, r2, r3 && r4)
         }) {
             Ok((true, true, true)) => {}
             Ok(r) => {
-                v.fail("mismatched site counts are not reported as errors", format!("(too few sites, y shorter than tau, extra sites without lsq) rejected: {:?}", r));
+                v.fail("mismatched site counts are not reported as errors", format!("(too few sites, y shorter than tau, extra sites without lsq / too few sites with lsq) rejected: {:?}", r));
                 return v;
             }
             Err(p) => {
